@@ -5,8 +5,9 @@ MODULES = {
     "C02": ["contracts.c02_itk"],
     "C03": ["contracts.c03_derived"],
     "C08": ["contracts.c08_linalg"],
+    "C11": ["contracts.c11_c13_flow"],
     "C12": ["contracts.c12_derivatives"],
-    "C13": ["contracts.c12_derivatives"],
+    "C13": ["contracts.c12_derivatives", "contracts.c11_c13_flow"],
     "C14": ["contracts.c14_bspline", "contracts.c12_derivatives"],
     "C16": ["contracts.c16_losses"],
     "C17": ["contracts.c17_regularisers"],
